@@ -268,6 +268,33 @@ def describe(data, site):
     return '%s <%s> %s' % (site[0], faults.local(el), extra)
 
 
+def graph_masks(seed):
+    """instance_node graphs (dangling, self- and mutually referring targets; in <library_nodes> or as scene roots; nested or not) under every
+    ignore configuration: strict outcome is ok or DaeBrokenRefError; exact / base class masks complete; an unrelated mask changes nothing. Returns None or (sig, text)"""
+    from props import c07
+    r = random.Random('c08g/%s' % seed)
+    defs = c07.graph_case(r)
+    where = r.choice(['library', 'scene'])
+    nest = r.random() < 0.4
+    data = c07.graph_doc(defs, where, nest)
+    what = 'instance_node graph %s (%s%s)' % (defs, where, ', nested' if nest else '')
+    strict, _ = load(data)
+    if strict.startswith('raw:'):
+        return ('graph:raw:' + strict[4:], '%s: the loader raises the raw exception %s' % (what, strict[4:]))
+    if strict not in ('ok', 'DaeBrokenRefError'):
+        return ('graph:wrong-kind:' + strict, '%s: the loader raises %s' % (what, strict))
+    for name, mask in (('DaeBrokenRefError', [cls('DaeBrokenRefError')]), ('DaeError', [cls('DaeError')])):
+        out, d = load(data, ignore=mask)
+        if out != 'ok':
+            return ('graph:not-ignorable:' + out.split(':')[0], '%s: with %s ignored the load ends with %s' % (what, name, out))
+        if strict != 'ok' and 'DaeBrokenRefError' not in [type(e).__name__ for e in d.errors]:
+            return ('graph:not-recorded', '%s: strict load raises DaeBrokenRefError but the masked load records %s' % (what, [type(e).__name__ for e in d.errors]))
+    out, _ = load(data, ignore=[cls('DaeMalformedError')])
+    if out != strict:
+        return ('graph:unrelated-mask', '%s: strict outcome %s, with the unrelated DaeMalformedError ignored %s' % (what, strict, out))
+    return None
+
+
 def mask_history(seed):
     """returns None or (sig, text)"""
     import collada
@@ -348,7 +375,25 @@ def run(ctx):
         root = ET.fromstring(data)
         ss = faults.sites(root)
         exhaustive = ctx.thorough and b % 10 == 0
-        chosen = ss if exhaustive else ctx.rng.sample(ss, min(len(ss), persite))
+        if exhaustive:
+            chosen = ss
+        else:
+            # stratified: at least one site of every (fault kind, element, attribute/child, library it sits in) class of this document, the rest at random
+            els = list(root.iter())
+            lib_of = {}
+            for lib in root:
+                for e in lib.iter():
+                    lib_of[e] = faults.local(lib)
+            groups = {}
+            for st in ss:
+                e = els[st[1]]
+                extra = st[2] if isinstance(st[2], str) else ''
+                groups.setdefault((st[0], faults.local(e), extra, lib_of.get(e)), []).append(st)
+            keys = sorted(groups, key=str)
+            ctx.rng.shuffle(keys)
+            chosen = [ctx.rng.choice(groups[k]) for k in keys]
+            rest = [st for st in ss if st not in chosen]
+            chosen += ctx.rng.sample(rest, min(len(rest), 10))
         chosen = chosen + [('truncated', 0, f) for f in (0.1, 0.3, 0.5, 0.7, 0.9, 0.97)]
         for site in chosen:
             res, info = check_fault(data, site, info0)
@@ -428,6 +473,14 @@ def run(ctx):
     d.ignoreErrors(None)
     if d.maskedErrors != []:
         ctx.violation('c08:clear-mask', 'ignoreErrors(None) leaves the mask %r' % (d.maskedErrors,), dict(kind='clear'))
+    for i in range(ctx.n(200, 5000)):
+        gseed = ctx.rng.randrange(10 ** 9)
+        res = graph_masks(gseed)
+        ctx.count('graph-masks')
+        ctx.case(dict(kind='graph-masks', seed=gseed))
+        if res and res[0] not in reported:
+            reported.add(res[0])
+            ctx.violation('c08:' + res[0], res[1], dict(kind='graph-masks', seed=gseed))
     # the mask as behaviour, not as an attribute: after any sequence of ignoreErrors calls (clearing included) an error passes
     # handleError iff one of the classes ignored SINCE THE LAST CLEARING is a superclass of it; every handled error is recorded
     from collada import common as _common
@@ -472,6 +525,11 @@ def replay(ctx, rep):
         out2, _ = load(bad2, ignore=[cls('DaeError')])
         print('  strict: %s, ignoring DaeError: %s' % (out, out2))
         return out.startswith('raw:') or out2 != 'ok'
+    if rep.get('kind') == 'graph-masks':
+        res = graph_masks(rep['seed'])
+        if res:
+            print('  ' + res[1])
+        return res is not None
     if rep.get('kind') == 'mask-history':
         res = mask_history(rep['seed'])
         if res:
